@@ -24,7 +24,7 @@ def _b_fp():
 def run17(tier):
     c = vlib.Check("C17", tier, "model_checking", RULE17, "spvec_bfs")
     c.assumptions = ["the concrete state of a SpVecGF2 is exactly its private vector `ones` (read/restored with -fno-access-control)",
-                     "a moved-from register is re-initialised before it is observed (its content is unspecified by the property)",
+                     "a moved-from register is marked unspecified: it is never observed or read until an operation overwrites it (assignment into it, clear(), construction), and those operations are part of the alphabet",
                      "dimension bound: 3 registers, D small coordinates + one huge coordinate"]
     b = _b_spvec()
     # gf2:R:D = D plain coordinates + the huge one; gf2g:R:sizes[:i] = coordinate groups (long vectors), consecutive or interleaved
